@@ -35,7 +35,8 @@ def run(ctx, sess):
     const_reference_rule(ctx, P)
     from .common import relay
     from . import c04 as _src_c04
-    relay(ctx, sess, _src_c04.run, {'C04.8': 'C15.11'}, minimum=5)
+    from .c04 import _freshness
+    _freshness(ctx, P, exceptions('C04'), rule='C15.11', only=lambda n: 'fsr' in n, minimum=3)
     # ---- C15.2
     need = {
         'summary': lambda e2: e2.k == 'call' and e2.callee == 'jls_core_fsr_summary1',
@@ -315,7 +316,7 @@ def const_reference_rule(ctx, P):
     for b in fn.blocks.values():
         for e in [ev.e for ev in b.events if ev.e is not None] + ([b.cond] if b.cond is not None else []):
             for m in walk(e):
-                if m.get('op') == 'member' and m.get('field') in ('entry_count', 'data_length', 'write_omit_data', 'shift_buffer'):
+                if m.get('op') == 'member' and m.get('field') in ('entry_count', 'data_length', 'write_omit_data', 'shift_buffer', 'shift_amount'):
                     p = path_of(m) or fn.path(m)
                     if p is not None:
                         keys[m['field']] = str(p)
@@ -329,7 +330,7 @@ def const_reference_rule(ctx, P):
     for width in (1, 4, 8):
         for first in (0x21, 0x12, 0x0f, 0xf0, 0xa5, 0x01, 0x80, 0xff, 0x00):
             env = {'self': 1}
-            env.update({keys.get('entry_count', 'x'): 64, keys.get('data_length', 'y'): 64, keys.get('write_omit_data', 'z'): 0, keys.get('shift_buffer', 'w'): 0})
+            env.update({keys.get('entry_count', 'x'): 64, keys.get('data_length', 'y'): 64, keys.get('write_omit_data', 'z'): 0, keys.get('shift_buffer', 'w'): 0, keys.get('shift_amount', 'v'): 0})
             for d in derefs:
                 env[d] = first
             got = []
@@ -344,8 +345,7 @@ def const_reference_rule(ctx, P):
             except Top:
                 pass          # the skeleton after the predicate depends on its result
             if not got:
-                bad.append('width %d, first byte 0x%02x: the predicate is not reached or its reference is not a local' % (width, first))
-                continue
+                raise AnalysisBroken('wr_data: the constant-block predicate is not reached by the trace for width %d (a member the skeleton depends on is not bound)' % width)
             n += 1
             sample = first & ((1 << width) - 1)
             want = sum(sample << (k * width) for k in range(8 // width))
